@@ -27,7 +27,7 @@ def build_case(rng: random.Random) -> dict:
         'lines': [rng.choice(LINE_POOL) for _ in range(rng.choice([0, 1, 1, 2, 3, 4, 6, 9]))],
         'repeat': rng.choice([1, 1, 1, 2, 3]),
         'via': rng.choice(['to_list', 'to_str', 'textblock', 'textblock_header',
-                           'textblock_set_indentor']),
+                           'textblock_set_indentor', 'textblock_given_once']),
         'nested': rng.random() < 0.15,
     }
     if rng.random() < 0.1:
@@ -138,9 +138,13 @@ def eval_case(case: dict) -> dict:
             src = list(tb.lines)
             if src != lines:
                 viol('textblock-did-not-store-lines', src=src)
-            for _ in range(case['repeat']):
+            for step in range(case['repeat']):
                 if case['via'] == 'textblock_set_indentor':
                     ret = tb.set_indentor(ind).indent()
+                elif case['via'] == 'textblock_given_once' and step > 0:
+                    # indent(options) specifies the options "in one sweep": they are the
+                    # block's current options from then on
+                    ret = tb.indent()
                 else:
                     ret = tb.indent(ind)
                 if ret is not tb:
